@@ -123,8 +123,12 @@ where
                 self.endcounter = Some(c - 1);
             } else if let Some(tv) = get_tag_val_bool(&tags, i as TagPos, &self.tag) {
                 if !tv {
-                    // End of burst.
-                    self.endcounter = Some(self.tail);
+                    // End of burst. Without a burst in progress (never
+                    // started, or discarded as too long) there is nothing to
+                    // end: don't emit a PDU made of the tail alone.
+                    if !self.buf.is_empty() {
+                        self.endcounter = Some(self.tail);
+                    }
                 } else {
                     // Start of burst, save first sample.
                     self.buf.push(*sample);
